@@ -170,12 +170,12 @@ let dump_obj (s : state) (x : id) : Stdlib.String.t =
              ^ "; refs=" ^ ssorted sid (s.drefs x) ^ "; data=" ^ sdata (s.data x) ^ "; ns=" ^ sns (s.nstab x))
       | KPort ->
         add ("; par=" ^ soid (s.par RPorts x) ^ "; pins=" ^ slist sid (s.kids RPins x)
-             ^ "; dn=" ^ sbool (s.bdownto x) ^ "; sc=" ^ sbool (read_scalar s x)
+             ^ "; dn=" ^ sbool (s.bdownto x) ^ "; sc=" ^ sbool (read_scalar s x) ^ "; rs=" ^ sbool (s.bscalar x)
              ^ "; lo=" ^ string_of_int (int_of_z (s.blower x)) ^ "; dir=" ^ sdir (s.pdir x)
              ^ "; data=" ^ sdata (s.data x))
       | KCable ->
         add ("; par=" ^ soid (s.par RCables x) ^ "; wires=" ^ slist sid (s.kids RWires x)
-             ^ "; dn=" ^ sbool (s.bdownto x) ^ "; sc=" ^ sbool (read_scalar s x)
+             ^ "; dn=" ^ sbool (s.bdownto x) ^ "; sc=" ^ sbool (read_scalar s x) ^ "; rs=" ^ sbool (s.bscalar x)
              ^ "; lo=" ^ string_of_int (int_of_z (s.blower x)) ^ "; data=" ^ sdata (s.data x))
       | KWire -> add ("; par=" ^ soid (s.par RWires x) ^ "; pins=" ^ slist tok_of_pin (s.wpins x))
       | KPin -> add ("; par=" ^ soid (s.par RPins x) ^ "; wire=" ^ soid (s.ipwire x))
